@@ -41,12 +41,14 @@ def check_prior(p, tag):
     if not free:
         return
     rng = np.random.default_rng(0)
-    for shape in ((len(free),), (4, len(free))):
+    for shape in ((len(free),), (4, len(free)), (1, len(free))):
         u = rng.random(shape)
         u0 = u.copy()
         x = p.unit_to_physical(u)
         if x.shape != u.shape or not np.array_equal(u, u0):
-            bad.append(dict(seq=tag, what='shape/in-place'))
+            bad.append(dict(seq=tag, what='shape/in-place: input shape {} '
+                            'gave {}'.format(u.shape, x.shape)))
+            continue
         for i, d in enumerate(free):
             if not np.allclose(x[..., i], d.ppf(u[..., i])):
                 bad.append(dict(seq=tag, what='column is not inverse cdf'))
